@@ -311,7 +311,17 @@ fn judge(bytes: &[u8], cfg: Cfg, transport: &str, obs: &Obs) -> Vec<Violation> {
 				let mut k = 0;
 				while k < arr.len() {
 					if arr[k].error_code == Some(-32008) {
-						if let Some(p) = need.iter().position(|w| matches!(w, EntryWant::Call(c, _) if c.id == arr[k].id)) {
+						// among the call entries with that id, the one that no other reply of the array answers
+						let cands: Vec<usize> = need.iter().enumerate().filter(|(_, w)| matches!(w, EntryWant::Call(c, _) if c.id == arr[k].id)).map(|(i, _)| i).collect();
+						let pick = cands
+							.iter()
+							.copied()
+							.find(|i| match need[*i] {
+								EntryWant::Call(c, _) => !arr.iter().any(|r| r.error_code != Some(-32008) && c.check(r).is_ok()),
+								_ => false,
+							})
+							.or(cands.first().copied());
+						if let Some(p) = pick {
 							need.remove(p);
 							arr.remove(k);
 							continue;
